@@ -1,4 +1,5 @@
 import Audit.Tool
 import Uds.Props.C08
 import Uds.Props.C08Call
+import Uds.Props.C08Hist
 #audit Uds.Props.C08
